@@ -13,12 +13,15 @@ import DeapModel.Lemmas.C07Assoc
 import DeapModel.Lemmas.C07Select
 import DeapModel.Lemmas.C07Norm
 import DeapModel.Lemmas.C07Transl
+import DeapModel.Lemmas.C07Full
+import DeapModel.Lemmas.C07Mem
+import DeapModel.Lemmas.C07Depth
 
 set_option linter.unusedSectionVars false
 set_option linter.unusedVariables false
 
 namespace C07
-open Spea2 Nsga3 C07L
+open Spea2 Nsga3 C07L NDSort
 
 /-! ## SPEA2 (`selSPEA2`, emo.py:708-824)
 
@@ -182,6 +185,14 @@ theorem niche_balance (L k nref : Nat) (niches : Nat → Nat) (dist : Nat → α
   intro a b ha ⟨q, hqL, hqs, hqb⟩
   exact inv.bal a b ha ⟨q, hqL, (inv.avail_iff q hqL).2 hqs, hqb⟩
 
+/-- the premises of `niche_balance` on a concrete run: 3 last-front members (niches 0,1,0), k = 2:
+niche 1 received member 1, niche 0 received member 0 and still has the unselected candidate 2;
+final counts 1 and 1. -/
+example : (match niching 3 2 2 (fun p => p % 2) (fun p => p) (fun _ => 0) [[1, 0], [1], [2, 0]] with
+    | .ok st => decide ((∃ p ∈ st.selected, p % 2 = 1) ∧ (∃ q ∈ List.range 3, q ∉ st.selected ∧ q % 2 = 0) ∧
+        st.counts 1 ≤ st.counts 0 + 1)
+    | .error _ => false) = true := by decide
+
 /-- `selNSGA3` returns exactly `k` individuals (the fronts before the last hold fewer than `k`). -/
 theorem nsga3_len (fronts : List (List Nat)) (k : Nat) (niches : List Nat) (dist : List α)
     (dflt : α) (nref : Nat) (tape : Tape) (res : List Nat)
@@ -226,6 +237,13 @@ theorem nsga3_niche_balance (fronts : List (List Nat)) (k : Nat) (niches : List 
         counts0L niches last a + sel.countP (fun p => nichesL fronts niches p == a) ≤
           counts0L niches last b + sel.countP (fun p => nichesL fronts niches p == b) + 1 :=
   selNSGA3_balance fronts k niches dist dflt nref tape res h
+
+/-- the premises on a concrete run: last front {0, 2, 4} with niches 0, 1, 1; members 0 (niche 0) and
+4 (niche 1) are selected, member 2 (niche 1) is left: both niches received, niche 1 has a candidate
+left; final counts 2 and 2. -/
+example : (match selNSGA3 [[3, 1], [0, 2, 4]] 4 [0, 1, 0, 1, 1] [1, 2, 3, 1, 2] (0 : Nat) 2
+    [[0, 1], [0], [2, 1]] with
+    | .ok r => decide (0 ∈ r ∧ 4 ∈ r ∧ 2 ∉ r ∧ r.length = 4) | .error _ => false) = true := by decide
 
 /-- `selNSGA3` (after sorting and association) terminates and raises nothing for `k ≤ n`. -/
 theorem nsga3_terminates (fronts : List (List Nat)) (k : Nat) (niches : List Nat) (dist : List α)
@@ -404,6 +422,170 @@ theorem old_formula_refuted : ¬ old_formula_denominator_pos := by
   have he : (eps : ℝ) < 1 := by unfold eps; rw [RealLike.real_ofRatio]; norm_num
   norm_num at d0
   linarith
+
+/-! ## NSGA-III end to end: Pareto depth (C04), own normalisation and association -/
+
+/-- front priority in terms of the Pareto depth of C04: whenever the fronts handed to the
+selection are the depth classes of the population (`hfr`, which is what C04 proves for both
+sorting back-ends), no omitted individual has a strictly smaller depth — lies in a strictly
+better front — than a selected one. -/
+theorem nsga3_depth_priority {β : Type} [DecidableEq β] {γ : Type} [LT γ] [DecidableLT γ]
+    (dom : β → β → Bool) (S : List β) (idOf : β → Nat)
+    (hinj : ∀ x ∈ S, ∀ y ∈ S, idOf x = idOf y → x = y)
+    (fr : List (List β))
+    (hfr : ∀ i f, fr[i]? = some f → ∀ x, x ∈ f ↔ x ∈ S ∧ depth dom S x = i)
+    (k : Nat) (niches : List Nat) (dist : List γ) (dflt : γ) (nref : Nat) (tape : Tape) (res : List Nat)
+    (h : selNSGA3 (fr.map (·.map idOf)) k niches dist dflt nref tape = .ok res) :
+    ∀ x ∈ S, ∀ y ∈ S, idOf x ∈ res → depth dom S y < depth dom S x → idOf y ∈ res :=
+  selNSGA3_depth_priority dom S idOf hinj fr hfr k niches dist dflt nref tape res h
+
+/-- … with the fronts computed by `sortNondominated` (C04 model `sortStd`): the population
+`exPopD` has depths 0,1,1,2; with `k = 2` the second front is cut. -/
+theorem nsga3_depth_priority_std {α : Type} [LinearOrder α] {γ : Type} [LT γ] [DecidableLT γ]
+    (pop : List (Ind α)) (hne : pop ≠ []) (m : Nat) (hlen : ∀ x ∈ pop, x.w.length = m)
+    (hid : (pop.map (·.id)).Nodup) (k : Nat) (fr : List (List (Ind α)))
+    (hs : sortStd pop k false = some fr)
+    (niches : List Nat) (dist : List γ) (dflt : γ) (nref : Nat) (tape : Tape) (res : List Nat)
+    (h : selNSGA3 (fr.map (·.map (·.id))) k niches dist dflt nref tape = .ok res) :
+    ∀ x ∈ pop, ∀ y ∈ pop, x.id ∈ res → depth domI pop y < depth domI pop x → y.id ∈ res :=
+  selNSGA3_depth_priority_std pop hne m hlen hid k fr hs niches dist dflt nref tape res h
+
+example : exPopD ≠ [] ∧ (∀ x ∈ exPopD, x.w.length = 2) ∧ (exPopD.map (·.id)).Nodup ∧
+    sortStd exPopD 2 false = some [[⟨0, [2, 2]⟩], [⟨1, [1, 0]⟩, ⟨2, [0, 1]⟩]] := by decide
+
+/-- … and by `sortLogNondominated` (C04 model `sortLog`, at least two objectives). -/
+theorem nsga3_depth_priority_log {𝕜 : Type} [Field 𝕜] [LinearOrder 𝕜] [IsStrictOrderedRing 𝕜]
+    [Inhabited 𝕜] {γ : Type} [LT γ] [DecidableLT γ]
+    (pop : List (Ind 𝕜)) (m : Nat) (hm : 2 ≤ m) (hne : pop ≠ []) (hlen : ∀ x ∈ pop, x.w.length = m)
+    (hid : (pop.map (·.id)).Nodup) (k : Nat) (fr : List (List (Ind 𝕜)))
+    (hs : sortLog pop k = some fr)
+    (niches : List Nat) (dist : List γ) (dflt : γ) (nref : Nat) (tape : Tape) (res : List Nat)
+    (h : selNSGA3 (fr.map (·.map (·.id))) k niches dist dflt nref tape = .ok res) :
+    ∀ x ∈ pop, ∀ y ∈ pop, x.id ∈ res → depth domI pop y < depth domI pop x → y.id ∈ res :=
+  selNSGA3_depth_priority_log pop m hm hne hlen hid k fr hs niches dist dflt nref tape res h
+
+example : (2 : Nat) ≤ 2 ∧ ([⟨0, [2, 2]⟩, ⟨1, [1, 0]⟩, ⟨2, [1, 0]⟩] : List (Ind ℚ)) ≠ [] ∧
+    (([⟨0, [2, 2]⟩, ⟨1, [1, 0]⟩, ⟨2, [1, 0]⟩] : List (Ind ℚ)).map (·.id)).Nodup := by decide
+
+section Full
+variable {α : Type} [RealLike α]
+
+/-- `selNSGA3Full` = normalisation → association → niching, nothing taken as input but the fronts,
+the objective vectors, the reference points, the memory, `solve` and the tape: exactly `k`
+individuals, input objects none twice, earlier fronts whole, and niche balance where the niche of
+an individual is the reference index ITS OWN association (`assocOf`) gives it and the counts are
+those of the returned selection. -/
+theorem nsga3_full_spec (solve : List (List α) → List α → Option (List α)) (fronts : List (List Nat))
+    (k : Nat) (fitOf : Nat → List α) (refs : List (List α)) (mb mw : Option (List α))
+    (me : Option (List (List α))) (tape : Tape) (res : List Nat)
+    (h : selNSGA3Full solve fronts k fitOf refs mb mw me tape = .ok res) :
+    (fronts.dropLast.flatten.length ≤ k → res.length = k) ∧
+    (fronts.flatten.Nodup → res.Nodup ∧ ∀ x ∈ res, x ∈ fronts.flatten) ∧
+    (∀ f1 f2, f1 < f2 → f2 < fronts.length → ∀ y ∈ fronts.getD f1 [], y ∈ res) ∧
+    ∃ (last sel : List Nat), fronts.getLast? = some last ∧
+      res = fronts.dropLast.flatten ++ sel.map (fun p => last.getD p 0) ∧
+      sel.Nodup ∧ (∀ p ∈ sel, p < last.length) ∧
+      ∀ a b,
+        (∃ p ∈ sel, (assocOf solve fronts fitOf refs mb mw me (fitOf (last.getD p 0))).1 = a) →
+        (∃ q, q < last.length ∧ q ∉ sel ∧
+          (assocOf solve fronts fitOf refs mb mw me (fitOf (last.getD q 0))).1 = b) →
+        (res.map (fun i => (assocOf solve fronts fitOf refs mb mw me (fitOf i)).1)).count a ≤
+          (res.map (fun i => (assocOf solve fronts fitOf refs mb mw me (fitOf i)).1)).count b + 1 :=
+  selNSGA3Full_spec solve fronts k fitOf refs mb mw me tape res h
+
+example : ([[3], [0, 1, 2]] : List (List Nat)).dropLast.flatten.length ≤ 3 ∧
+    ([[3], [0, 1, 2]] : List (List Nat)).flatten.Nodup ∧
+    (0 < 1 ∧ 1 < ([[3], [0, 1, 2]] : List (List Nat)).length ∧ 3 ∈ ([[3], [0, 1, 2]] : List (List Nat)).getD 0 []) := by
+  decide
+
+/-- `selNSGA3Full` terminates and raises nothing for `k ≤ n` and a non-empty reference set — the
+niche numbers it consumes are valid by construction. -/
+theorem nsga3_full_terminates (solve : List (List α) → List α → Option (List α))
+    (fronts : List (List Nat)) (k : Nat) (fitOf : Nat → List α) (refs : List (List α))
+    (mb mw : Option (List α)) (me : Option (List (List α))) (tape : Tape) (last : List Nat)
+    (hl : fronts.getLast? = some last) (hk : k ≤ fronts.flatten.length) (hne : refs ≠ []) :
+    ∀ e, selNSGA3Full solve fronts k fitOf refs mb mw me tape = .error e → e = Err.badTape :=
+  selNSGA3Full_fine solve fronts k fitOf refs mb mw me tape last hl hk hne
+
+example : ([[3], [0, 1, 2]] : List (List Nat)).getLast? = some [0, 1, 2] ∧
+    3 ≤ ([[3], [0, 1, 2]] : List (List Nat)).flatten.length ∧
+    ([[0.0, 1.0], [1.0, 0.0]] : List (List Float)) ≠ [] := ⟨by decide, by decide, List.cons_ne_nil _ _⟩
+
+end Full
+
+/-- the association with every dimension explicit: all vectors have `M` coordinates (so no
+`zipWith` truncation), the reference directions are non-zero, the denominators of the normalisation
+are non-zero.  Then the normalised point has the `M` coordinates `(f_m - z_m)/(a_m - z_m + eps)`,
+the chosen niche is a valid index, its reported distance is ≤ the distance from the normalised
+point to EVERY point `t·r` of EVERY reference line, and equals the distance to the orthogonal
+projection on the chosen line. -/
+theorem associate_correct (M : Nat) (refs : List (List ℝ)) (best intercepts f : List ℝ)
+    (hne : refs ≠ [])
+    (hrefs : ∀ r ∈ refs, r.length = M ∧ ∃ x ∈ r, x ≠ 0)
+    (hb : best.length = M) (hi : intercepts.length = M) (hf : f.length = M)
+    (hden : ∀ d ∈ List.zipWith (fun i b => i - b + (eps : ℝ)) intercepts best, d ≠ 0) :
+    let fn := normalise best intercepts f
+    let res := associate1 refs best intercepts f
+    fn.length = M ∧
+    (∀ m (hm : m < M) (h1 : m < fn.length) (h2 : m < f.length) (h3 : m < best.length)
+        (h4 : m < intercepts.length),
+        fn[m] = (f[m] - best[m]) / (intercepts[m] - best[m] + eps)) ∧
+    res.1 < refs.length ∧
+    (∀ r ∈ refs, ∀ t : ℝ,
+      res.2 ≤ Real.sqrt ((List.zipWith (fun a x => (a - t * x) ^ 2) fn r).sum)) ∧
+    res.2 = Real.sqrt ((List.zipWith (fun a x =>
+      (a - (sdot fn (refs.getD res.1 []) / sdot (refs.getD res.1 []) (refs.getD res.1 [])) * x) ^ 2)
+        fn (refs.getD res.1 [])).sum) :=
+  C07L.associate_correct M refs best intercepts f hne hrefs hb hi hf hden
+
+example : ([[1, 0], [0, 1]] : List (List ℝ)) ≠ [] ∧
+    (∀ r ∈ ([[1, 0], [0, 1]] : List (List ℝ)), r.length = 2 ∧ ∃ x ∈ r, x ≠ 0) := by
+  refine ⟨List.cons_ne_nil _ _, ?_⟩
+  intro r hr
+  simp only [List.mem_cons, List.not_mem_nil, or_false] at hr
+  rcases hr with rfl | rfl
+  · exact ⟨rfl, 1, by simp, one_ne_zero⟩
+  · exact ⟨rfl, 1, by simp, one_ne_zero⟩
+
+/-- every niche consumed by `selNSGA3Full` is the association of that individual with the model's
+own ideal point and intercepts (`assocOf … = associate1 refs best intercepts`), hence — dimensions
+as in `associate_correct` — a reference direction of smallest perpendicular distance in the
+normalised objective space. -/
+theorem nsga3_full_association (solve : List (List ℝ) → List ℝ → Option (List ℝ))
+    (fronts : List (List Nat)) (fitOf : Nat → List ℝ) (refs : List (List ℝ))
+    (mb mw : Option (List ℝ)) (me : Option (List (List ℝ))) (f : List ℝ) :
+    assocOf solve fronts fitOf refs mb mw me f =
+      associate1 refs (normalisation solve (fronts.flatten.map fitOf) mb mw me).1
+        (normalisation solve (fronts.flatten.map fitOf) mb mw me).2.2.2 f := rfl
+
+/-- `selNSGA3WithMemory` over any sequence of calls: the remembered ideal point is the
+componentwise minimum of every objective vector seen in all calls so far (a lower bound that is
+attained), the remembered worst point the componentwise maximum. -/
+theorem memory_after_calls (solve : List (List ℝ) → List ℝ → Option (List ℝ))
+    (calls : List (List (List ℝ))) (M : Nat) (hne : calls ≠ [])
+    (hrect : ∀ fits ∈ calls, fits ≠ [] ∧ ∀ r ∈ fits, r.length = M) :
+    (∃ b, (memAfter solve Mem.init calls).best = some b ∧ b.length = M ∧
+      ∀ j (hj : j < M) (hb : j < b.length),
+        (∀ fits ∈ calls, ∀ r ∈ fits, ∀ hr : j < r.length, b[j] ≤ r[j]) ∧
+        (∃ fits ∈ calls, ∃ r ∈ fits, ∃ hr : j < r.length, b[j] = r[j])) ∧
+    (∃ w, (memAfter solve Mem.init calls).worst = some w ∧ w.length = M ∧
+      ∀ j (hj : j < M) (hw : j < w.length),
+        (∀ fits ∈ calls, ∀ r ∈ fits, ∀ hr : j < r.length, r[j] ≤ w[j]) ∧
+        (∃ fits ∈ calls, ∃ r ∈ fits, ∃ hr : j < r.length, w[j] = r[j])) :=
+  ⟨memAfter_best solve calls M hne hrect, memAfter_worst solve calls M hne hrect⟩
+
+example : ([[[1, 2], [3, 0]], [[0, 5]]] : List (List (List ℝ))) ≠ [] ∧
+    ∀ fits ∈ ([[[1, 2], [3, 0]], [[0, 5]]] : List (List (List ℝ))), fits ≠ [] ∧ ∀ r ∈ fits, r.length = 2 := by
+  refine ⟨List.cons_ne_nil _ _, ?_⟩
+  intro fits hf
+  simp only [List.mem_cons, List.not_mem_nil, or_false] at hf
+  rcases hf with rfl | rfl
+  · refine ⟨List.cons_ne_nil _ _, ?_⟩
+    intro r hr; simp only [List.mem_cons, List.not_mem_nil, or_false] at hr
+    rcases hr with rfl | rfl <;> rfl
+  · refine ⟨List.cons_ne_nil _ _, ?_⟩
+    intro r hr; simp only [List.mem_cons, List.not_mem_nil, or_false] at hr
+    rcases hr with rfl; rfl
 
 /-! ## reference points (`uniform_reference_points`, emo.py:680-701) -/
 
